@@ -80,10 +80,11 @@ TEMPLATES: List[Tuple[str, str]] = [
 ]
 
 
-def gen_data(rng, rows=None) -> Dict[str, pd.DataFrame]:
+def gen_data(rng, scale=1) -> Dict[str, pd.DataFrame]:
+    """scale multiplies the universe of Id_1 (and with it the number of datapoints of every dataset)"""
     def num():
         return None if rng.random() < 0.2 else float(Fraction(rng.randrange(-40, 41), 4))
-    ids1 = [1, 2, 3, 4]
+    ids1 = list(range(1, 4 * scale + 1))
     ids2 = ["A", "B", "C"]
     out = {}
 
@@ -101,7 +102,7 @@ def gen_data(rng, rows=None) -> Dict[str, pd.DataFrame]:
     out["DS_3"] = pd.DataFrame({"Id_1": [k[0] for k in d3], "Me_1": [num() for _ in d3]})
     d4 = pick(list(itertools.product(ids1, ids2, [1, 2, 3])), 0.5)
     out["DS_4"] = pd.DataFrame({"Id_1": [k[0] for k in d4], "Id_2": [k[1] for k in d4], "Id_3": [k[2] for k in d4], "Me_1": [num() for _ in d4]})
-    ds = pick([(i,) for i in range(1, 9)], 0.8)
+    ds = pick([(i,) for i in range(1, 8 * scale + 1)], 0.8)
     strs = ["abc", "banana", " pad ", "", "Hello", "a", "xyz", "AbA"]
     out["DS_S"] = pd.DataFrame({"Id_1": [k[0] for k in ds], "Me_s": [None if rng.random() < 0.15 else rng.choice(strs) for _ in ds],
                                 "Me_b": [None if rng.random() < 0.2 else rng.random() < 0.5 for _ in ds],
@@ -110,10 +111,10 @@ def gen_data(rng, rows=None) -> Dict[str, pd.DataFrame]:
     periods = {"M": [f"2020-M{m:02d}" for m in range(9, 13)] + [f"2021-M{m:02d}" for m in range(1, 4)],
                "Q": ["2020-Q3", "2020-Q4", "2021-Q1", "2021-Q2"], "A": ["2019", "2020", "2021", "2022"],
                "W": ["2020-W51", "2020-W52", "2020-W53", "2021-W01", "2021-W02"], "D": ["2020-D364", "2020-D365", "2020-D366", "2021-D001", "2021-D002"]}[freq]
-    dt = pick(list(itertools.product([1, 2], periods)), 0.7)
+    dt = pick(list(itertools.product(range(1, 2 * scale + 1), periods)), 0.7)
     out["DS_T"] = pd.DataFrame({"Id_1": [k[0] for k in dt], "Id_t": [k[1] for k in dt], "Me_1": [num() for _ in dt]})
     dates = ["2020-02-28", "2020-02-29", "2020-12-31", "2021-01-01", "2021-03-15"]
-    dd = pick(list(itertools.product([1, 2], dates)), 0.7)
+    dd = pick(list(itertools.product(range(1, 2 * scale + 1), dates)), 0.7)
     out["DS_D"] = pd.DataFrame({"Id_1": [k[0] for k in dd], "Id_d": [k[1] for k in dd], "Me_1": [num() for _ in dd]})
     return out
 
@@ -123,14 +124,14 @@ def structures_for(script: str):
     return engine.structures(*[engine.ds_struct(n, STRUCTS[n]) for n in names]), names
 
 
-def cases(rng, n_draws=1, only=None):
+def cases(rng, n_draws=1, only=None, scale=1, skip=()):
     """yields (template name, script, structures, datapoints)"""
     for name, script in TEMPLATES:
-        if only and name not in only:
+        if (only and name not in only) or name in skip:
             continue
         st, names = structures_for(script)
         for _ in range(n_draws):
-            data = gen_data(rng)
+            data = gen_data(rng, scale)
             yield name, script, st, {n: data[n] for n in names}
 
 
